@@ -80,7 +80,8 @@ func (e *engine) Generate(r *lib.Rng, tier string, i int) any {
 	}
 	// one declaration of source type Outer may come from START (the workflow's input) instead of a lambda node
 	for k := range c.Decls {
-		if d := &c.Decls[k]; d.S == "Outer" && !d.Indirect && r.Chance(1, 3) {
+		// (the workflow's input is handed over as one value: not for a declaration that streams several chunks)
+		if d := &c.Decls[k]; d.S == "Outer" && !d.Indirect && len(d.Chunks) == 0 && r.Chance(1, 3) {
 			d.FromStart = true
 			break
 		}
@@ -133,7 +134,7 @@ func (e *engine) generate(r *lib.Rng, tier string, i int) any {
 		if c := g.nilCase(); c != nil {
 			return c
 		}
-	case r.Chance(1, 14):
+	case r.Chance(1, 8):
 		if c := g.retypedCase(); c != nil {
 			return c
 		}
@@ -170,7 +171,16 @@ func (e *engine) generate(r *lib.Rng, tier string, i int) any {
 			if S == "any" && T != "any" && r.Chance(3, 4) {
 				return g.value(T, g.depth) // a value of the right dynamic type
 			}
-			return g.value(S, g.depth)
+			v := g.value(S, g.depth)
+			// (not the nil interface value as a node's whole output: the engine does not hand it on in Invoke —
+			// "no tasks to execute" —, with or without field mappings; outside this property)
+			for try := 0; try < 8 && v.K == "nil"; try++ {
+				v = g.value(S, g.depth)
+			}
+			if v.K == "nil" {
+				v = vInt(1)
+			}
+			return v
 		}
 		d := Decl{S: S, Val: mk()}
 		if r.Chance(1, 3) {
@@ -620,7 +630,9 @@ func (e *engine) Run(ci any) lib.Result {
 		if !(strings.Contains(o.ColMsg, "concat") && len(o.StrVals) >= 2) {
 			fail("collect-stream", "Stream succeeded, Collect failed: "+o.ColMsg)
 		}
-	case o.Stream == "ok" && o.Collect == "ok":
+	case o.Stream == "ok" && o.Collect == "ok" && decomposed(c):
+		// (every predecessor streams its value as one chunk or as map chunks with disjoint keys: every slot is carried
+		// by one chunk, so how eino concatenates two leaves — property C14 — does not matter)
 		acc := zeroV(c.T)
 		okm := true
 		for _, ch := range o.StrVals {
